@@ -99,7 +99,9 @@ WrongNumOps == {[op |-> "AddWrongNum", b |-> ScratchId, p |-> p, n |-> Num(p) + 
 NoDigestOps == {[op |-> "AddNoDigest", b |-> ScratchId, p |-> p, n |-> Num(p) + 1, prim |-> FALSE, arr |-> 1,
                  hr |-> HashRank[ScratchId]] : p \in live}
 (* the set id only matters to the dot/state projection; it never decreases *)
-SetIds == IF ObsKind = "state" THEN {rs.s, IF rs.s < 2 THEN rs.s + 1 ELSE rs.s} ELSE {rs.s}
+(* in finalisations that succeed; an attempt under a LOWER set id (a voter whose cached set is stale, a late      *)
+(* justification of the previous set) is one of the "other attempts": it fails and changes nothing               *)
+SetIds == IF ObsKind = "state" THEN {rs.s, IF rs.s < 2 THEN rs.s + 1 ELSE rs.s, IF rs.s > 0 THEN rs.s - 1 ELSE rs.s} ELSE {rs.s}
 FinOps == {[op |-> "Finalise", b |-> b, r |-> att + 1, s |-> s] : b \in Known \cup {Unknown}, s \in SetIds}
 
 Ops == {o \in AddOps \cup OrphanOps \cup DupOps \cup WrongNumOps \cup NoDigestOps \cup FinOps : o.op \in OpKinds}
@@ -111,11 +113,12 @@ PrunedBy(f) == FAbandoned(Par, f)
 (* C17: "The finalised head only moves to a known descendant of the        *)
 (* previous finalised head; any other finalisation attempt fails and       *)
 (* changes nothing."  The tree holds exactly the descendants of the head.  *)
-FinaliseOk(o) == o.b \in live
+FinaliseOk(o) == o.b \in live /\ o.s >= rs.s
 
 Result(o) ==
   CASE o.op = "Add" -> [ok |-> TRUE, pruned |-> <<>>]
-    [] o.op = "Finalise" -> [ok |-> FinaliseOk(o), pruned |-> IF FinaliseOk(o) THEN FSorted(PrunedBy(o.b)) ELSE <<>>]
+    [] o.op = "Finalise" -> [ok |-> FinaliseOk(o), pruned |-> IF FinaliseOk(o) THEN FSorted(PrunedBy(o.b)) ELSE <<>>,
+                             lowset |-> o.s < rs.s]
     [] OTHER -> [ok |-> FALSE, pruned |-> <<>>]
 
 --------------------------------------------------------------------------
